@@ -397,6 +397,24 @@ func (f *Frame) assumeWellFormed(st *State, v *Term, t types.Type) {
 		if v.Sort != SByt {
 			f.c.assume(st, Ge(f.c.sliceLen(v), IntLit(0)))
 		}
+	case *types.Struct:
+		// struct values: well-formedness of their slice / unsigned components (one level)
+		si := f.c.structs[v.Sort]
+		if si == nil || len(si.Fields) > 24 {
+			return
+		}
+		for i := 0; i < u.NumFields() && i < len(si.Fields); i++ {
+			switch ft := types.Unalias(u.Field(i).Type()).Underlying().(type) {
+			case *types.Slice:
+				if si.Fields[i].Sort != SByt {
+					f.c.assume(st, Ge(f.c.sliceLen(f.c.fieldGet(v, si, i)), IntLit(0)))
+				}
+			case *types.Basic:
+				if ft.Info()&types.IsUnsigned != 0 {
+					f.c.assume(st, Ge(f.c.fieldGet(v, si, i), IntLit(0)))
+				}
+			}
+		}
 	}
 }
 
